@@ -35,16 +35,25 @@ type Cell struct {
 	PauseMs   int64  `json:"pause_ms"`
 	ID        bool   `json:"id"`
 	Bound     int    `json:"bound"`
+	Big       bool   `json:"big,omitempty"` // jsonlines: smallest buffer, samples of ~700 bytes with a json.Marshaler field: the encoder writes through to the sink by itself
 }
 
 func (c Cell) Name() string {
-	return fmt.Sprintf("%s|R=%d|k=%d|queue=%d|flush=%dms|pause=%dms|id=%v", c.Kind, c.Reporters, c.Per, c.Queue, c.FlushMs, c.PauseMs, c.ID)
+	return fmt.Sprintf("%s|R=%d|k=%d|queue=%d|flush=%dms|pause=%dms|id=%v|big=%v", c.Kind, c.Reporters, c.Per, c.Queue, c.FlushMs, c.PauseMs, c.ID, c.Big)
 }
 
 type jsample struct {
 	ID  int    `json:"id"`
 	Tag string `json:"tag"`
 	Val int    `json:"val"`
+}
+
+// jbig carries a json.Marshaler field: jsoniter hands such values down to its writer while encoding.
+type jbig struct {
+	ID  int       `json:"id"`
+	Tag string    `json:"tag"`
+	At  time.Time `json:"at"`
+	Pad string    `json:"pad"`
 }
 
 type run struct {
@@ -77,6 +86,9 @@ func (r *run) scenario(x *vs.X) func(end, msg string) error {
 		conf.Sink = sinkAdapter{r.sink}
 		conf.FlushInterval = time.Duration(c.FlushMs) * time.Millisecond
 		conf.ReporterConfig.SampleQueueSize = c.Queue
+		if c.Big {
+			conf.JSONLineEncoderConfig.BufferSize = 1 // the minimum (4 KiB) is used
+		}
 		agg = aggregator.NewJSONLinesAggregator(conf)
 	}
 	ctx, cancel := context.WithCancel(context.Background())
@@ -90,6 +102,9 @@ func (r *run) scenario(x *vs.X) func(end, msg string) error {
 			s.SetProtoCode(200 + i)
 			s.SetRequestBytes(id)
 			return s
+		}
+		if c.Big {
+			return &jbig{ID: id, Tag: fmt.Sprintf("t\"%d\n", rr), At: time.Unix(int64(id), 0).UTC(), Pad: strings.Repeat("p", 700)}
 		}
 		return &jsample{ID: id, Tag: fmt.Sprintf("t\"%d\n", rr), Val: i}
 	}
@@ -202,6 +217,16 @@ func cells(thorough bool) []Cell {
 	bound := 1
 	if thorough {
 		bound = 2
+	}
+	// enough big samples for the encoder to overflow its 4 KiB buffers several times
+	for _, R := range []int{1, 2} {
+		for _, per := range []int{7, 13} {
+			for _, fl := range []int64{0, 1000} {
+				for _, pause := range []int64{0, 600} {
+					out = append(out, Cell{Kind: "jsonlines", Reporters: R, Per: per, Queue: 64, FlushMs: fl, PauseMs: pause, Bound: R - 1, Big: true})
+				}
+			}
+		}
 	}
 	for _, kind := range []string{"phout", "jsonlines"} {
 		for R := 1; R <= 3; R++ {
